@@ -288,7 +288,7 @@ func bBind(intp *Interpreter) error {
 	if !ok {
 		return intp.e(eTypecheck, "bind: needs a procedure, not %T", obj)
 	}
-	return intp.bindProc(obj, 0)
+	return intp.bindProc(obj, 0, make(map[procID]bool))
 }
 
 func bCleartomark(intp *Interpreter) error {
@@ -1375,10 +1375,27 @@ func equal(a, b Object) (bool, error) {
 	return a == b, nil
 }
 
-func (intp *Interpreter) bindProc(proc Procedure, depth int) error {
+// procID identifies a procedure by the position and length of its body.
+type procID struct {
+	first *Object
+	n     int
+}
+
+// bindProc replaces operator names in proc (and, recursively, in the
+// procedures it contains) by their values.  Every procedure is visited only
+// once, so that shared or self-referential procedures take linear time.
+func (intp *Interpreter) bindProc(proc Procedure, depth int, seen map[procID]bool) error {
 	if depth > maxBindDepth {
 		return intp.e(eLimitcheck, "bind: procedures nested too deeply")
 	}
+	if len(proc) == 0 {
+		return nil
+	}
+	id := procID{&proc[0], len(proc)}
+	if seen[id] {
+		return nil
+	}
+	seen[id] = true
 	for i, elem := range proc {
 		switch obj := elem.(type) {
 		case Operator:
@@ -1391,10 +1408,7 @@ func (intp *Interpreter) bindProc(proc Procedure, depth int) error {
 				proc[i] = val
 			}
 		case Procedure:
-			// be careful to avoid infinite loops
-			proc[i] = nil
-			err := intp.bindProc(obj, depth+1)
-			proc[i] = obj
+			err := intp.bindProc(obj, depth+1, seen)
 			if err != nil {
 				return err
 			}
